@@ -308,6 +308,20 @@ fn run_cmd(m: &mut M, w: &[&str]) -> String {
             format!("parent={} prev={} next={} first={} last={} removed={}", optid(n.parent()), optid(n.previous_sibling()),
                 optid(n.next_sibling()), optid(n.first_child()), optid(n.last_child()), n.is_removed())
         }
+        "par_iter" => {
+            // addresses of the nodes par_iter() visits (sorted) against those of iter(); only in the all-features build
+            #[cfg(feature = "ix-all")]
+            {
+                use rayon::iter::ParallelIterator;
+                let a = &m.arenas[m.cur];
+                let mut p: Vec<usize> = a.par_iter().map(|n| n as *const _ as usize).collect();
+                p.sort();
+                let q: Vec<usize> = a.iter().map(|n| n as *const _ as usize).collect();
+                format!("par={} seq={} same={}", p.len(), q.len(), p == q)
+            }
+            #[cfg(not(feature = "ix-all"))]
+            { "unavailable".to_string() }
+        }
         "sizeof" => format!("{} {} {} {}", std::mem::size_of::<indextree::Node<P>>(), std::mem::size_of::<indextree::Node<u64>>(),
             std::mem::size_of::<indextree::Node<[u8; 33]>>(), std::mem::size_of::<indextree::Node<()>>()),
         "render" => {
